@@ -94,6 +94,9 @@ struct ChannelSlot {
     // collected in deferred_frames and written once the content is complete.
     content_in_progress: bool,
     deferred_frames: OutputBuffer,
+    // True until the server's Channel.OpenOk for this incarnation of the channel id has
+    // arrived.
+    awaiting_open_ok: bool,
 }
 
 impl ChannelSlot {
@@ -126,6 +129,7 @@ impl ChannelSlot {
             pub_confirm_handler: None,
             content_in_progress: false,
             deferred_frames: OutputBuffer::empty(),
+            awaiting_open_ok: true,
         };
 
         let loop_handle = IoLoopHandle::new(channel_id, mio_tx, rx);
